@@ -752,11 +752,17 @@ class HfProtocol(utils.EventEmitter):
 
             # Isolate the AT response code and parameters.
             raw_response = self.read_buffer[header + 2 : trailer]
-            response = AtResponse.parse_from(raw_response)
-            logger.debug(f"<<< {raw_response.decode()}")
 
-            # Consume the response bytes.
+            # Consume the response bytes (before parsing them, so that a malformed
+            # response cannot wedge the reader).
             self.read_buffer = self.read_buffer[trailer + 2 :]
+
+            try:
+                response = AtResponse.parse_from(raw_response)
+            except Exception:
+                logger.warning(f"invalid AT response, ignoring: {bytes(raw_response)!r}")
+                continue
+            logger.debug(f"<<< {raw_response.decode()}")
 
             # Forward the received code to the correct queue.
             if self.pending_command and (
@@ -1247,11 +1253,18 @@ class AgProtocol(utils.EventEmitter):
 
             # Isolate the AT response code and parameters.
             raw_command = self.read_buffer[:trailer]
-            command = AtCommand.parse_from(raw_command)
-            logger.debug(f"<<< {raw_command.decode()}")
 
-            # Consume the response bytes.
+            # Consume the command bytes (before parsing them, so that a malformed
+            # command cannot wedge the reader).
             self.read_buffer = self.read_buffer[trailer + 1 :]
+
+            try:
+                command = AtCommand.parse_from(raw_command)
+            except Exception:
+                logger.warning(f"invalid AT command: {bytes(raw_command)!r}")
+                self.send_error()
+                continue
+            logger.debug(f"<<< {raw_command.decode()}")
 
             if command.sub_code == AtCommand.SubCode.TEST:
                 handler_name = f'_on_{command.code.lower()}_test'
